@@ -52,8 +52,13 @@ func PESOpt(t *rapid.T, o PESOptOpts, label string) *ref.PESOpt {
 	}
 	left := max
 	flags := rapid.IntRange(0, 255).Draw(t, label+"_flags")
+	if flags>>6 == 1 && !o.Writable {
+		// the forbidden value '01': no timestamp follows in the syntax, the other fields sit where they would without it
+		h.Forbidden01 = true
+		flags &= 0x3f
+	}
 	switch flags >> 6 {
-	case 2, 1: // PTS only (the forbidden value '01' is never produced)
+	case 2, 1: // PTS only (for the writer the forbidden value '01' is never produced)
 		if left >= 5 {
 			v := EdgeU(t, 33, label+"_pts")
 			h.PTS = &v
